@@ -130,6 +130,14 @@ func (e *Engine) generate() {
 	for k, v := range s.Heap {
 		s.Entry[0].Heap[k] = v
 	}
+	// termination of recursion: a function on a call-graph cycle needs a measure
+	if e.P.Recursive(fn) {
+		if e.Contract == nil || e.Contract.Decreases == nil {
+			e.structural(e.FnKey+"/decreases-missing", "decreases", fn.Pos(), "recursive function has a decreases clause", false, "function is on a call-graph cycle and has no decreases clause")
+		} else {
+			e.entryMeasure = e.define(s, "measure0", "Int", e.evalTerm(s, ctx, e.Contract.Decreases.Expr))
+		}
+	}
 	e.entryLines = len(s.Lines)
 	e.entryState = s.clone()
 	outs := e.runFunc(s, fn, args, binds, "")
@@ -146,9 +154,14 @@ func (e *Engine) checkPost(o outcome) {
 	fn := e.Fn
 	s := o.s
 	// postconditions are evaluated with an empty frame stack: re-push a pseudo frame for name lookup
-	s.Frames = append(s.Frames, &Frame{Fn: fn, Vals: map[ssa.Value]*Val{}, Depth: 0})
+	fr := o.frame
+	if fr == nil {
+		fr = &Frame{Fn: fn, Vals: map[ssa.Value]*Val{}, Depth: 0}
+	}
+	s.Frames = append(s.Frames, fr)
 	defer func() { s.Frames = s.Frames[:len(s.Frames)-1] }()
-	ctx := &SpecCtx{Fn: fn, Params: s.Entry[0].Params, PTypes: s.Entry[0].PTypes, Bound: map[string]*SV{}, OldHeap: s.Entry[0].Heap, Results: o.results}
+	// names resolve to results, then to entry values of parameters, then to the final value of locals
+	ctx := &SpecCtx{Fn: fn, Params: s.Entry[0].Params, PTypes: s.Entry[0].PTypes, Bound: map[string]*SV{}, OldHeap: s.Entry[0].Heap, Results: o.results, Frame: fr, UseLocals: true, ParamsFirst: true}
 	if ctx.Results == nil {
 		ctx.Results = []*Val{}
 	}
@@ -158,7 +171,7 @@ func (e *Engine) checkPost(o outcome) {
 		ctx.RNames = append(ctx.RNames, res.At(i).Name())
 	}
 	for k, en := range e.Contract.Ensures {
-		t := e.evalBool(s, ctx, en.Expr)
+		t, _ := e.tryEvalBool(s, ctx, en.Expr)
 		e.assert(s, fmt.Sprintf("%s/post#%d", e.FnKey, k), "post", fn.Pos(), en.Text, t)
 	}
 }
